@@ -6,7 +6,8 @@ For each seeded/<ID>-<X>/: scratch worktree of /repo HEAD, demo on the clean tre
 property listed in meta.json['caught_by'].  Writes seeded/RESULTS.md."""
 import sys, os, json, subprocess, tempfile, shutil, glob, time
 HERE = os.path.dirname(os.path.dirname(os.path.abspath(__file__)))
-only = sys.argv[1:]
+append = '--append' in sys.argv
+only = [a for a in sys.argv[1:] if a != '--append']
 rows = []
 for d in sorted(glob.glob(os.path.join(HERE, 'seeded', '*-*'))):
     name = os.path.basename(d)
@@ -45,12 +46,13 @@ for d in sorted(glob.glob(os.path.join(HERE, 'seeded', '*-*'))):
     rows.append(res)
     print(json.dumps(res), flush=True)
 subprocess.call(['git', '-C', '/repo', 'worktree', 'prune'])
-if not only:
+if not only or append:
     head = subprocess.check_output(['git', '-C', '/repo', 'log', '--oneline', '-1']).decode().strip()
-    with open(os.path.join(HERE, 'seeded', 'RESULTS.md'), 'w') as f:
-        f.write('# Seeded changes re-validated against /repo HEAD `%s`\n\n' % head)
-        f.write('Produced by `tools/run_seeded.py` (scratch worktree per change, removed afterwards). rc=1 means the check reported a VIOLATION.\n\n')
-        f.write('| seed | demo clean/patched | suite with patch | checks (rc, wall, failure kinds) |\n|---|---|---|---|\n')
+    with open(os.path.join(HERE, 'seeded', 'RESULTS.md'), 'a' if append else 'w') as f:
+        if not append:
+            f.write('# Seeded changes re-validated against /repo HEAD `%s`\n\n' % head)
+            f.write('Produced by `tools/run_seeded.py` (scratch worktree per change, removed afterwards). rc=1 means the check reported a VIOLATION.\n\n')
+            f.write('| seed | demo clean/patched | suite with patch | checks (rc, wall, failure kinds) |\n|---|---|---|---|\n')
         for r_ in rows:
             ch = '; '.join('%s rc=%s %ss %s' % (i, v['rc'], v['wall_s'], ','.join(v['buckets'])) for i, v in r_.get('checks', {}).items())
             f.write('| %s | %s/%s | %s | %s |\n' % (r_['seed'], r_.get('demo_clean'), r_.get('demo_patched'), r_.get('suite', r_.get('apply')), ch))
